@@ -128,16 +128,20 @@ _p('C20')
 
 
 def props_header(pid):
-    """The leading block comment of Props/<pid>.lean states what is proved and what is not."""
-    p = os.path.join(os.path.dirname(os.path.abspath(__file__)), '..', 'lean', 'Kodama', 'Props', pid + '.lean')
-    if not os.path.exists(p):
-        return ''
-    t = open(p).read()
-    a = t.find('/-')
-    b = t.find('-/')
-    if a < 0 or b < 0:
-        return ''
-    return t[a + 2:b].strip()
+    """The leading block comments of Props/<pid>*.lean state what is proved and what is not."""
+    import glob
+    d = os.path.join(os.path.dirname(os.path.abspath(__file__)), '..', 'lean', 'Kodama', 'Props')
+    out = []
+    for p in sorted(glob.glob(os.path.join(d, pid + '*.lean'))):
+        t = open(p).read()
+        a = t.find('/-')
+        b = t.find('-/')
+        if a < 0 or b < 0:
+            continue
+        h = t[a + 2:b].strip()
+        main = os.path.basename(p) == pid + '.lean'
+        out.append('[' + os.path.basename(p) + '] ' + (h if main else h[:1800] + (' …' if len(h) > 1800 else '')))
+    return '\n\n'.join(out)
 
 
 def evidence(pid, tier, seed, pr, sessions, wall, violations, known_hits):
